@@ -818,6 +818,18 @@ def _squarefree_split(n: int):
     return s, r
 
 
+def _prime_factors(n: int):
+    out, p = [], 2
+    while p * p <= n and p < 100_000:
+        while n % p == 0:
+            out.append(p)
+            n //= p
+        p += 1
+    if n > 1:
+        out.append(n)
+    return out
+
+
 def _sqrt_poly(p) -> Rat:
     """sqrt of a polynomial, canonicalised: rational content and even monomial
     powers are pulled out; the remainder becomes one sqrt atom."""
@@ -834,8 +846,10 @@ def _sqrt_poly(p) -> Rat:
     out = out * const(Fraction(s_n, s_d))
     rc = Fraction(r_n, r_d)
     if rc != 1:
-        # sqrt(r_n/r_d) = sqrt(r_n*r_d)/r_d
-        out = out * fn_atom("sqrt", const(r_n * r_d)) / const(r_d)
+        # sqrt(r_n/r_d) = sqrt(r_n*r_d)/r_d ; square-free radicand split into prime atoms so sqrt(6) == sqrt(2)*sqrt(3)
+        for pr in _prime_factors(r_n * r_d):
+            out = out * fn_atom("sqrt", const(pr))
+        out = out / const(r_d)
     # monomial content with even exponents
     g = p_mono_content(prim)
     if g:
@@ -848,7 +862,9 @@ def _sqrt_poly(p) -> Rat:
         v = prim[ONE_M]
         if v == 1:
             return out
-        return out * fn_atom("sqrt", const(v))
+        for pr in _prime_factors(int(v)):
+            out = out * fn_atom("sqrt", const(pr))
+        return out
     if len(prim) == 1:
         (m, v), = prim.items()
         # single monomial with odd exponents, coefficient is +-1 after content removal
